@@ -92,6 +92,8 @@ impl V {
                 m > 0x7ff0_0000_0000_0000 || m == 0 || (0x433f_ffff_ffff_fff0..=0x4340_0000_0000_0010).contains(&m) || m >= 0x43d0_0000_0000_0000
             }
             V::Int(i) => i.unsigned_abs() >= (1u64 << 53) - 1,
+            // a duration whose nanos are not normalised: seconds and nanos can trade against each other
+            V::Dur(_, _, _, n) => *n < 0 || *n >= 1_000_000_000,
             V::Vec(l) => l.iter().any(|x| (x & 0x7fff_ffff) > 0x7f80_0000 || (x & 0x7fff_ffff) == 0),
             V::Arr(xs) => xs.iter().any(|x| x.special()),
             V::Map(m) => m.iter().any(|(_, v)| v.special()),
@@ -376,7 +378,213 @@ fn boundary_set() -> Vec<V> {
     v
 }
 
+const NS: i32 = 1_000_000_000;
+const MONTH_S: i64 = 2_629_746; // the average month openCypher uses to order durations
+const DAY_S: i64 = 86_400;
+
+/// A coarser notion of equality that must NOT leak into `Ord`: the "length" of a duration, the
+/// numeric value of a number / datetime, the component list of an array / vector, keys + coarse
+/// values of a map, a case-folded string.  Two different values with the same coarse key are the
+/// pairs an order "by meaning" would merge into one index key.
+fn coarse_key(v: &V) -> String {
+    fn num(x: f64) -> String {
+        if x == 0.0 { "#0".into() } else { format!("#{:e}", x) }
+    }
+    match v {
+        V::Null => "null".into(),
+        V::Bool(b) => num(*b as u8 as f64),
+        V::Int(i) => num(*i as f64),
+        V::Dt(t) => num(*t as f64),
+        V::Flt(b) => num(f64::from_bits(*b)),
+        V::Str(s) => format!("s{}", String::from_utf8_lossy(s).to_lowercase().replace('\u{301}', "").replace('é', "e").trim()),
+        V::Dur(m, d, sec, n) => {
+            let t = ((*m as i128) * MONTH_S as i128 + (*d as i128) * DAY_S as i128 + *sec as i128) * NS as i128 + *n as i128;
+            format!("dur{}", t)
+        }
+        V::Vec(l) => format!("[{}]", l.iter().map(|x| num(f32::from_bits(*x) as f64)).collect::<Vec<_>>().join(",")),
+        V::Arr(xs) => format!("[{}]", xs.iter().map(coarse_key).collect::<Vec<_>>().join(",")),
+        V::Map(m) => format!(
+            "{{{}}}",
+            m.iter().map(|(k, v)| format!("{}:{}", String::from_utf8_lossy(k).to_lowercase(), coarse_key(v))).collect::<Vec<_>>().join(",")
+        ),
+    }
+}
+
+/// Families of pairwise DIFFERENT values several of which are "the same" under a coarser notion
+/// of equality.  On every family all pairs must satisfy `cmp = Equal <-> identical`, `==` false,
+/// distinct index keys.
+fn families() -> Vec<(&'static str, Vec<V>)> {
+    let d = |m: i64, dd: i64, s: i64, n: i64| V::Dur(m, dd, s, n as i32);
+    let a = |xs: Vec<V>| V::Arr(xs);
+    let m = |xs: Vec<(&str, V)>| V::Map(xs.into_iter().map(|(kk, vv)| (k(kk), vv)).collect());
+    let one = 0x3ff0_0000_0000_0000u64;
+    let two = 0x4000_0000_0000_0000u64;
+    let five = 0x4014_0000_0000_0000u64;
+    let ns = NS as i64;
+    let mut out: Vec<(&'static str, Vec<V>)> = vec![];
+    // sub-day part: several (seconds, nanos) splits of one total, nanos negative / >= 1e9 / multiples / i32 extremes
+    out.push((
+        "duration-seconds-nanos-splits",
+        vec![
+            d(0, 0, 0, 0), d(0, 0, 1, -ns), d(0, 0, -1, ns), d(0, 0, 2, -2 * ns), d(0, 0, -2, 2 * ns),
+            d(0, 0, 0, ns / 2), d(0, 0, 1, -ns / 2), d(0, 0, -1, 3 * ns / 2), d(0, 0, 2, -3 * ns / 2),
+            d(0, 0, 1, 0), d(0, 0, 0, ns), d(0, 0, 2, -ns), d(0, 0, -1, 2 * ns), d(0, 0, 3, -2 * ns),
+            d(0, 0, 0, 1), d(0, 0, 1, 1 - ns), d(0, 0, 0, -1), d(0, 0, -1, ns - 1), d(0, 0, 0, ns - 1), d(0, 0, 1, -1),
+            d(0, 0, 0, i32::MAX as i64), d(0, 0, 2, i32::MAX as i64 - 2 * ns), d(0, 0, 1, i32::MAX as i64 - ns),
+            d(0, 0, 0, i32::MIN as i64), d(0, 0, -2, i32::MIN as i64 + 2 * ns), d(0, 0, -1, i32::MIN as i64 + ns),
+            d(5, 7, 1, -ns / 2), d(5, 7, 0, ns / 2), d(-1, 31, 0, ns), d(-1, 31, 1, 0),
+        ],
+    ));
+    // calendar part: months / days / seconds combinations of equal length
+    out.push((
+        "duration-equal-length-calendar",
+        vec![
+            d(0, 1, 0, 0), d(0, 0, DAY_S, 0), d(0, 0, DAY_S - 1, ns), d(0, 2, -DAY_S, 0), d(0, 0, DAY_S + 1, -ns), d(0, -1, 2 * DAY_S, 0),
+            d(1, 0, 0, 0), d(0, 0, MONTH_S, 0), d(0, 30, 37_746, 0), d(0, 30, 37_745, ns), d(0, 31, -48_654, 0), d(2, 0, -MONTH_S, 0),
+            d(1, 1, -DAY_S, 0), d(1, -1, DAY_S, 0), d(-1, 0, 2 * MONTH_S, 0), d(0, 0, MONTH_S - 1, ns), d(1, 0, 1, -ns),
+            d(0, 0, 0, 0), d(0, 1, -DAY_S, 0), d(1, 0, -MONTH_S, 0), d(1, -30, -37_746, 0), d(-1, 30, 37_746, 0), d(0, -1, DAY_S - 1, ns),
+            d(0, 0, 129_600, 0), d(0, 1, 43_200, 0), d(0, 45, 0, 0), d(1, 14, 49_254 - DAY_S, 0), d(12, 0, 0, 0), d(0, 365, 20_952, 0), d(0, 0, 12 * MONTH_S, 0),
+            d(i64::MAX, 0, 0, 0), d(i64::MAX - 1, 0, MONTH_S, 0), d(0, i64::MAX, 0, 0), d(0, i64::MAX - 1, DAY_S, 0), d(0, 0, i64::MAX, 0), d(0, 0, i64::MAX - 1, ns),
+            d(i64::MIN, 0, 0, 0), d(i64::MIN + 1, 0, -MONTH_S, 0), d(0, 0, i64::MIN, 0), d(0, 0, i64::MIN + 1, -ns),
+        ],
+    ));
+    // numbers, datetimes, booleans, strings, durations and containers "worth" 0, 1 or 5
+    out.push((
+        "equal-numeric-value",
+        vec![
+            V::Int(0), V::Flt(0), V::Dt(0), V::Bool(false), V::Null, s(""), s("0"), d(0, 0, 0, 0), a(vec![]), m(vec![]), V::Vec(vec![]),
+            V::Int(1), V::Flt(one), V::Dt(1), V::Bool(true), s("1"), s("true"), d(0, 0, 1, 0), d(0, 0, 0, 1), d(1, 0, 0, 0), d(0, 1, 0, 0),
+            V::Int(5), V::Flt(five), V::Dt(5), s("5"), d(0, 0, 5, 0), d(0, 0, 0, 5), a(vec![V::Int(5)]), V::Vec(vec![0x40a0_0000]),
+            V::Int(-1), V::Flt(one | 1 << 63), V::Dt(-1), d(0, 0, -1, 0), d(0, 0, 0, -1),
+            V::Int(1_000_000_000), V::Dt(1_000_000_000), V::Flt(0x41cd_cd65_0000_0000), d(0, 0, 0, ns), d(0, 0, 1_000_000_000, 0),
+        ],
+    ));
+    // arrays vs vectors (vs arrays of other number types) with equal components
+    out.push((
+        "array-vector-equal-components",
+        vec![
+            a(vec![]), V::Vec(vec![]),
+            a(vec![V::Flt(one)]), a(vec![V::Int(1)]), a(vec![V::Dt(1)]), a(vec![V::Bool(true)]), V::Vec(vec![0x3f80_0000]), a(vec![a(vec![V::Int(1)])]), a(vec![V::Vec(vec![0x3f80_0000])]),
+            a(vec![V::Flt(one), V::Flt(two)]), a(vec![V::Int(1), V::Int(2)]), a(vec![V::Int(1), V::Flt(two)]), a(vec![V::Flt(one), V::Int(2)]),
+            a(vec![V::Dt(1), V::Dt(2)]), V::Vec(vec![0x3f80_0000, 0x4000_0000]), a(vec![a(vec![V::Int(1), V::Int(2)])]), a(vec![a(vec![V::Int(1)]), a(vec![V::Int(2)])]),
+            a(vec![V::Flt(0x3fe0_0000_0000_0000)]), V::Vec(vec![0x3f00_0000]),
+            a(vec![d(0, 0, 1, 0)]), a(vec![d(0, 0, 0, ns)]), a(vec![d(0, 0, 2, -ns)]),
+            a(vec![V::Int(1), V::Null]), a(vec![V::Int(1), V::Int(0)]), a(vec![V::Int(1), V::Flt(0)]),
+        ],
+    ));
+    // maps with the same keys (or keys equal up to case) and "equal" values
+    out.push((
+        "map-same-keys",
+        vec![
+            m(vec![("a", V::Int(1))]), m(vec![("a", V::Flt(one))]), m(vec![("a", V::Dt(1))]), m(vec![("a", V::Bool(true))]), m(vec![("a", s("1"))]),
+            m(vec![("a", a(vec![V::Int(1)]))]), m(vec![("a", V::Vec(vec![0x3f80_0000]))]), m(vec![("a", m(vec![("a", V::Int(1))]))]),
+            m(vec![("A", V::Int(1))]), m(vec![("A", V::Flt(one))]),
+            m(vec![("a", V::Int(1)), ("b", V::Int(2))]), m(vec![("a", V::Flt(one)), ("b", V::Int(2))]), m(vec![("a", V::Int(1)), ("b", V::Flt(two))]),
+            m(vec![("a", V::Flt(one)), ("b", V::Flt(two))]), m(vec![("a", V::Int(2)), ("b", V::Int(1))]), m(vec![("A", V::Int(1)), ("b", V::Int(2))]),
+            m(vec![("a", d(0, 0, 1, 0))]), m(vec![("a", d(0, 0, 0, ns))]), m(vec![("a", d(0, 0, 2, -ns))]), m(vec![("a", d(0, 1, 0, 0))]), m(vec![("a", d(0, 0, DAY_S, 0))]),
+            m(vec![("a", V::Null)]), m(vec![]), m(vec![("a", V::Int(0))]), m(vec![("a", V::Flt(0))]),
+        ],
+    ));
+    // strings equal up to case / unicode composition / surrounding blanks
+    out.push((
+        "string-folding",
+        vec![
+            s("a"), s("A"), s("a "), s(" a"), s("é"), s("e\u{301}"), s("É"), s("e"), s("E"), s("ab"), s("aB"), s("Ab"), s("AB"), s(""), s(" "),
+        ],
+    ));
+    out
+}
+
+fn rand_dur(rng: &mut Rng) -> V {
+    const MO: [i64; 6] = [0, 0, 0, 1, -1, 2];
+    const DA: [i64; 10] = [0, 0, 0, 1, -1, 2, 30, 31, -30, 45];
+    const SE: [i64; 18] = [0, 0, 0, 1, -1, 2, -2, 3, 37_745, 37_746, -37_746, DAY_S - 1, DAY_S, DAY_S + 1, -DAY_S, MONTH_S, -MONTH_S, MONTH_S - 1];
+    const NA: [i32; 16] = [0, 0, 0, 1, -1, NS / 2, -NS / 2, NS - 1, 1 - NS, NS, -NS, NS / 2 * 3, -(NS / 2 * 3), 2 * NS, -2 * NS, i32::MAX];
+    V::Dur(
+        *rng.pick(&MO),
+        *rng.pick(&DA),
+        if rng.chance(1, 6) { rng.range(-5, 5) } else { *rng.pick(&SE) },
+        if rng.chance(1, 8) { rng.next_u64() as i32 } else { *rng.pick(&NA) },
+    )
+}
+
+/// another spelling of (nearly) the same length: trade seconds against nanos, days against
+/// seconds, months against days/seconds -- or move one field by one
+fn mutate_dur(rng: &mut Rng, m: i64, d: i64, sec: i64, n: i32) -> V {
+    match rng.below(7) {
+        0 | 1 => {
+            let kk = *rng.pick(&[1i64, -1, 2, -2]);
+            match ((n as i64) - kk * NS as i64).try_into() {
+                Ok(n2) => V::Dur(m, d, sec.wrapping_add(kk), n2),
+                Err(_) => V::Dur(m, d, sec, n.wrapping_add(1)),
+            }
+        }
+        2 => {
+            let kk = *rng.pick(&[1i64, -1]);
+            V::Dur(m, d.wrapping_add(kk), sec.wrapping_sub(kk * DAY_S), n)
+        }
+        3 => {
+            let kk = *rng.pick(&[1i64, -1]);
+            V::Dur(m.wrapping_add(kk), d, sec.wrapping_sub(kk * MONTH_S), n)
+        }
+        4 => {
+            let kk = *rng.pick(&[1i64, -1]);
+            V::Dur(m.wrapping_add(kk), d.wrapping_sub(kk * 30), sec.wrapping_sub(kk * 37_746), n)
+        }
+        5 => V::Dur(m, d, sec.wrapping_add(rng.range(-1, 1)), n),
+        _ => V::Dur(m, d, sec, n.wrapping_add(rng.range(-1, 1) as i32)),
+    }
+}
+
+/// the same "meaning" in another variant: Integer / DateTime / Float of one numeric value,
+/// Vector / Array of the same components
+fn respell(rng: &mut Rng, v: &V) -> Option<V> {
+    Some(match v {
+        V::Int(i) => match rng.below(3) {
+            0 => V::Dt(*i),
+            1 => V::Flt((*i as f64).to_bits()),
+            _ => V::Dur(0, 0, *i, 0),
+        },
+        V::Dt(t) => if rng.chance(1, 2) { V::Int(*t) } else { V::Flt((*t as f64).to_bits()) },
+        V::Flt(b) => {
+            let x = f64::from_bits(*b);
+            if x.is_finite() && x.fract() == 0.0 && x.abs() < 9.0e18 {
+                if rng.chance(1, 2) { V::Int(x as i64) } else { V::Dt(x as i64) }
+            } else {
+                return None;
+            }
+        }
+        V::Vec(l) => V::Arr(l.iter().map(|x| V::Flt((f32::from_bits(*x) as f64).to_bits())).collect()),
+        V::Arr(xs) if xs.iter().all(|x| matches!(x, V::Flt(_) | V::Int(_))) => V::Vec(
+            xs.iter()
+                .map(|x| match x {
+                    V::Flt(b) => (f64::from_bits(*b) as f32).to_bits(),
+                    V::Int(i) => (*i as f32).to_bits(),
+                    _ => 0,
+                })
+                .collect(),
+        ),
+        V::Str(t) => {
+            let u = String::from_utf8_lossy(t).to_string();
+            let f = if rng.chance(1, 2) { u.to_uppercase() } else { format!("{} ", u) };
+            V::Str(f.into_bytes())
+        }
+        _ => return None,
+    })
+}
+
 fn rand_scalar(rng: &mut Rng, pool: &[V]) -> V {
+    if rng.chance(1, 8) {
+        return rand_dur(rng);
+    }
+    if rng.chance(1, 16) {
+        let t = rng.range(-3, 3);
+        return match rng.below(3) {
+            0 => V::Dt(t),
+            1 => V::Int(t),
+            _ => V::Flt((t as f64).to_bits()),
+        };
+    }
     match rng.below(10) {
         0..=4 => rng.pick(pool).clone(),
         5 => V::Int(rng.next_u64() as i64),
@@ -408,7 +616,13 @@ fn rand_val(rng: &mut Rng, pool: &[V], depth: u32) -> V {
 
 /// change one place of a value (so that comparisons have to look deep)
 fn mutate(rng: &mut Rng, pool: &[V], v: &V) -> V {
+    if rng.chance(1, 5) {
+        if let Some(w) = respell(rng, v) {
+            return w;
+        }
+    }
     match v {
+        V::Dur(m, d, sec, n) if rng.chance(7, 8) => mutate_dur(rng, *m, *d, *sec, *n),
         V::Arr(xs) if !xs.is_empty() && rng.chance(3, 4) => {
             let mut ys = xs.clone();
             let i = rng.usize(ys.len());
@@ -501,9 +715,73 @@ fn main() {
         sets.push(boundary.clone());
         rep.exhaustive = true;
         rep.exhaustive_note = format!(
-            "all {}^3 ordered triples over the enumerated boundary set of {} values (every variant; signed zeros, 4 NaN patterns, infinities, 2^53 and 2^63 neighbourhoods as Integer and Float, i64 extremes, empty/nested arrays and maps, vectors with 0/-0/NaN lanes, durations, datetimes, null); plus random sets (not exhaustive)",
+            "all {}^3 ordered triples over the enumerated boundary set of {} values (every variant; signed zeros, 4 NaN patterns, infinities, 2^53 and 2^63 neighbourhoods as Integer and Float, i64 extremes, empty/nested arrays and maps, vectors with 0/-0/NaN lanes, durations, datetimes, null), and all n^3 triples over each of the enumerated families of different-but-equivalent values (duration splits of one length with nanos outside [0,1e9), months/days/seconds of equal length, Integer/Float/DateTime/Boolean/String of one numeric value, arrays vs vectors with equal components, maps with the same keys, strings equal up to case -- bare and nested in arrays/maps); plus random sets (not exhaustive)",
             boundary.len(), boundary.len()
         );
+        // families of different values that a coarser equality (length, numeric value, components,
+        // keys, case) would merge: every pair must be told apart by cmp, == and the index
+        let mut fam_sets: Vec<(String, Vec<V>)> = vec![];
+        for (name, vals) in families() {
+            let wrap_a: Vec<V> = vals.iter().map(|v| V::Arr(vec![v.clone()])).collect();
+            let wrap_m: Vec<V> = vals.iter().map(|v| V::Map(vec![(k("a"), v.clone())])).collect();
+            let wrap_t: Vec<V> = vals.iter().map(|v| V::Arr(vec![V::Int(7), V::Map(vec![(k("k"), v.clone())])])).collect();
+            fam_sets.push((name.to_string(), vals));
+            if name.starts_with("duration") || name == "equal-numeric-value" {
+                fam_sets.push((format!("{}/in-array", name), wrap_a));
+                fam_sets.push((format!("{}/in-map", name), wrap_m));
+                fam_sets.push((format!("{}/in-array-map", name), wrap_t));
+            }
+        }
+        for (name, vals) in &fam_sets {
+            let pvs: Vec<PropertyValue> = vals.iter().map(|v| v.to_pv()).collect();
+            let rs: Vec<String> = vals.iter().map(|v| v.render()).collect();
+            let ck: Vec<String> = vals.iter().map(coarse_key).collect();
+            let (mut pairs, mut coarse) = (0u64, 0u64);
+            for i in 0..vals.len() {
+                for j in 0..vals.len() {
+                    if i == j {
+                        continue;
+                    }
+                    if rs[i] == rs[j] {
+                        rep.notes.push(format!("family {} lists {} twice", name, rs[i]));
+                        continue;
+                    }
+                    pairs += 1;
+                    if ck[i] == ck[j] {
+                        coarse += 1;
+                    }
+                    let body = format!("vals {};{}", rs[i], rs[j]);
+                    if pvs[i].cmp(&pvs[j]) == Ordering::Equal {
+                        rep.count("law_violation:ord-equal-distinct-values");
+                        rep.spec_violation(
+                            &known,
+                            "ord-equal-distinct-values",
+                            &format!("family {}: cmp({}, {}) = Equal although the two values differ{}", name, rs[i], rs[j],
+                                if ck[i] == ck[j] { " (they only agree in length / numeric value / components)" } else { "" }),
+                            &body,
+                        );
+                    }
+                    if pvs[i] == pvs[j] {
+                        rep.count("law_violation:eq-distinct-values");
+                        rep.spec_violation(&known, "eq-distinct-values", &format!("family {}: {} == {} although the two values differ", name, rs[i], rs[j]), &body);
+                    }
+                }
+            }
+            rep.count_n("family_pairs_checked", pairs);
+            rep.count_n("family_pairs_coarse_equal", coarse);
+            rep.count_n(&format!("family_pairs_coarse_equal:{}", name), coarse);
+            if coarse == 0 {
+                rep.notes.push(format!("family {} has no pair that a coarser equality would merge", name));
+            }
+            sets.push(vals.clone());
+            sort_cases.push(vals.clone());
+            // multisets drawn from the family (duplicates included), as sort / index cases
+            for _ in 0..(if args.thorough() { 40 } else { 6 }) {
+                let len = 4 + rng.usize(20);
+                sort_cases.push((0..len).map(|_| rng.pick(vals).clone()).collect());
+            }
+        }
+        rep.count_n("family_sets", fam_sets.len() as u64);
         let n_sets = if args.thorough() { 40_000 } else { 6_000 };
         for _ in 0..n_sets {
             let mut set: Vec<V> = vec![];
@@ -679,6 +957,7 @@ fn main() {
         }
         // (b) the B-tree index: every value must be found again, whatever the insertion order
         let mut miss = None;
+        let mut merged: Option<String> = None;
         let mut range_bad = None;
         for t in 0..3 {
             let mut order: Vec<usize> = (0..xs.len()).collect();
@@ -693,7 +972,10 @@ fn main() {
                 let mut got: Vec<u64> = index.get(&pvs[i]).iter().map(|n| n.as_u64()).collect();
                 got.sort();
                 let want: Vec<u64> = (0..xs.len()).filter(|j| rs[*j] == rs[i]).map(|j| j as u64).collect();
-                if got != want && miss.is_none() {
+                if got != want && want.iter().all(|w| got.contains(w)) && merged.is_none() {
+                    let extra: Vec<String> = got.iter().filter(|g| !want.contains(g)).map(|g| rs[*g as usize].clone()).collect();
+                    merged = Some(format!("get({}) = {:?} also returns the nodes holding {:?} (insertion order {:?})", rs[i], got, extra, order));
+                } else if got != want && miss.is_none() {
                     miss = Some(format!("get({}) = {:?}, inserted under ids {:?} (insertion order {:?})", rs[i], got, want, order));
                 }
                 if index.count(&pvs[i]) != want.len() && miss.is_none() {
@@ -735,7 +1017,10 @@ fn main() {
                 }
             }
         }
-        if let Some(w) = miss {
+        if let Some(w) = merged {
+            rep.count("law_violation:index-key-merge");
+            rep.spec_violation(&known, "index-key-merge", &format!("PropertyIndex folds two different values into one key: {}", w), &body);
+        } else if let Some(w) = miss {
             rep.count("law_violation:index-lookup-miss");
             rep.spec_violation(&known, "index-lookup-miss", &format!("PropertyIndex lost a value: {}", w), &body);
         } else if let Some(w) = range_bad {
